@@ -61,48 +61,68 @@ class Lit:
 
 
 class IntSeg:
-    __slots__ = ("x", "n", "order")
+    """n-byte encoding of (x mod 256**n). `reduced` records that 0 <= x < 256**n is known, so no reduction is needed."""
 
-    def __init__(self, x, n: int, order: str):
+    __slots__ = ("x", "n", "order", "reduced", "digs")
+
+    def __init__(self, x, n: int, order: str, reduced=False, digs=None):
         assert isinstance(n, int) and n >= 0
         assert order in ("little", "big")
         self.x = _norm_int(x)
         self.n = n
         self.order = order
+        self.reduced = reduced
+        self.digs = digs  # base-256 digits, least significant first (shared with the pieces this segment is cut into)
+        if isinstance(self.x, int):
+            self.x %= 256**n
+            self.reduced = True
 
     @property
     def length(self):
         return self.n
 
-    def value(self):
-        """x mod 256**n as int/term."""
-        if isinstance(self.x, int):
+    def value(self, ctx=None):
+        """x mod 256**n as int/term. With a path context the reduction is a fresh variable with a linear definition
+        (ctx.mod), or no reduction at all when the range of x is entailed."""
+        if self.reduced:
+            return self.x
+        if ctx is None:
             return self.x % (256**self.n)
-        return self.x % (256**self.n)
+        K = 256**self.n
+        if ctx.entails(z3.And(Z(self.x) >= 0, Z(self.x) < K)):
+            self.reduced = True
+            return self.x
+        self.x = _norm_int(ctx.mod(self.x, K))
+        self.reduced = True
+        return self.x
+
+    def digits(self, ctx):
+        if self.digs is None:
+            self.digs = ctx.digits(self.value(ctx), self.n)
+        return self.digs
 
     def __repr__(self):
         return f"Int{'LE' if self.order == 'little' else 'BE'}({self.x},{self.n})"
 
 
 class Atom:
-    __slots__ = ("term", "lo", "hi")
+    """term[lo:hi]; `full` records that this is the whole of `term` (lo = 0, hi = blen(term)), also when hi has been
+    replaced by a constant the path condition forces."""
 
-    def __init__(self, term, lo, hi):
+    __slots__ = ("term", "lo", "hi", "full")
+
+    def __init__(self, term, lo, hi, full=False):
         self.term = term
         self.lo = _norm_int(lo)
         self.hi = _norm_int(hi)
+        self.full = full or (isinstance(self.lo, int) and self.lo == 0 and not isinstance(self.hi, int) and self.hi.eq(blen(term)))
 
     @property
     def length(self):
         return _sub(self.hi, self.lo)
 
     def is_full(self):
-        if not (isinstance(self.lo, int) and self.lo == 0):
-            return False
-        if isinstance(self.hi, int):
-            k = KNOWN_LEN.get(self.term.get_id())
-            return k is not None and k[1] == self.hi
-        return self.hi.eq(blen(self.term))
+        return self.full
 
     def __repr__(self):
         return f"Atom({self.term},{self.lo},{self.hi})"
@@ -122,14 +142,11 @@ class Zeros:
         return f"Zeros({self.n})"
 
 
-KNOWN_LEN: dict = {}  # id of a Bytes term -> (term, concrete length): atoms created with a known constant length
-
-
 def full_atom(term, length=None):
+    """The whole of `term`; `length` may give its (asserted elsewhere) constant length."""
     if isinstance(length, int):
-        KNOWN_LEN[term.get_id()] = (term, length)
-        return Atom(term, 0, length)
-    return Atom(term, 0, blen(term))
+        return Atom(term, 0, length, True)
+    return Atom(term, 0, blen(term), True)
 
 
 class Rope:
@@ -256,7 +273,7 @@ def _to_atom(ctx, seg):
         t = bytes_lit(seg.data)
         return Atom(t, 0, len(seg.data))
     if isinstance(seg, IntSeg):
-        t = INTB(Z(seg.value()), seg.n, 0 if seg.order == "little" else 1)
+        t = INTB(Z(seg.value(ctx)), seg.n, 0 if seg.order == "little" else 1)
         ctx.assume(blen(t) == seg.n)
         return Atom(t, 0, seg.n)
     if isinstance(seg, Zeros):
@@ -282,10 +299,17 @@ def _split_seg(ctx, seg, d):
     if isinstance(seg, IntSeg):
         if isinstance(d, int):
             n = seg.n
-            v = seg.value()
+            ds = seg.digits(ctx)
+
+            def piece(sub, order):
+                val = 0
+                for j, dg in enumerate(sub):
+                    val = _add(val, dg * (256**j) if isinstance(dg, int) else simp(Z(dg) * (256**j)))
+                return IntSeg(val, len(sub), order, True, list(sub))
+
             if seg.order == "little":
-                return [IntSeg(v % 256**d, d, "little")], [IntSeg(_div(v, 256**d), n - d, "little")]
-            return [IntSeg(_div(v, 256 ** (n - d)), d, "big")], [IntSeg(v % 256 ** (n - d), n - d, "big")]
+                return [piece(ds[:d], "little")], [piece(ds[d:], "little")]
+            return [piece(ds[n - d :], "big")], [piece(ds[: n - d], "big")]
         seg = _to_atom(ctx, seg)
     if isinstance(seg, Zeros):
         return [Zeros(d)], [Zeros(_sub(seg.n, d))]
@@ -408,8 +432,7 @@ def _seg_bytes(ctx, seg):
     if isinstance(seg, Zeros):
         return [0] * ln
     if isinstance(seg, IntSeg):
-        v = seg.value()
-        le = [_norm_int(_div(v, 256**j) % 256) if not isinstance(v, int) else (v >> (8 * j)) & 255 for j in range(ln)]
+        le = list(seg.digits(ctx))
         return le if seg.order == "little" else list(reversed(le))
     if isinstance(seg, Atom):
         out = []
@@ -429,7 +452,7 @@ def to_int(ctx, rope: Rope, order: str, signed: bool = False):
         return 0
     val = None
     if len(segs) == 1 and isinstance(segs[0], IntSeg) and segs[0].order == order:
-        val = segs[0].value()
+        val = segs[0].value(ctx)
     elif isinstance(n, int):
         # positional sum; segments in matching order contribute as a whole, others byte by byte
         total = 0
@@ -440,7 +463,7 @@ def to_int(ctx, rope: Rope, order: str, signed: bool = False):
         for s in seq:
             ln = s.length
             if isinstance(s, IntSeg) and s.order == order:
-                part = s.value()
+                part = s.value(ctx)
             elif isinstance(s, Lit):
                 part = int.from_bytes(s.data, order)
             else:
@@ -509,10 +532,11 @@ def eq(ctx, r1: Rope, r2: Rope):
             if isinstance(h, Zeros):
                 lst[0] = Lit(b"\x00" * v) if v <= 65536 else Zeros(v)
             elif isinstance(h, Atom):
-                if h.is_full():
-                    KNOWN_LEN[h.term.get_id()] = (h.term, v)
-                lst[0] = Atom(h.term, h.lo, _add(h.lo, v))
+                lst[0] = Atom(h.term, h.lo, _add(h.lo, v), h.full)
             return
+
+    def intlike(x):
+        return isinstance(x, (IntSeg, Lit, Zeros)) and isinstance(x.length, int)
 
     while a and b:
         settle(a)
@@ -521,6 +545,34 @@ def eq(ctx, r1: Rope, r2: Rope):
             break
         s, t = a[0], b[0]
         ls, lt = s.length, t.length
+        # a k-byte integer facing several shorter integer / literal segments that together cover it: compare digit
+        # by digit when the digits are syntactically the same chain variables (no solver work at all), else as ONE
+        # integer equation (equal-length byte strings are equal iff their big-endian values are) - this avoids
+        # digit-by-digit uniqueness reasoning, e.g. for two's complement content octets
+        if intlike(s) and intlike(t) and not (isinstance(s, Lit) and isinstance(t, Lit)) and ls != lt:
+            big, small, first_is_a = (a, b, True) if ls > lt else (b, a, False)
+            target = big[0].length
+            j, lb = 0, 0
+            while lb < target and j < len(small) and intlike(small[j]):
+                lb += small[j].length
+                j += 1
+            if lb == target and target <= 64:
+                bs_big = _seg_bytes(ctx, big[0])
+                bs_small = []
+                for seg_ in small[:j]:
+                    bb = _seg_bytes(ctx, seg_)
+                    if bb is None:
+                        bs_small = None
+                        break
+                    bs_small.extend(bb)
+                same = bs_big is not None and bs_small is not None and all(
+                    (isinstance(x, int) and isinstance(y, int) and x == y) or (not isinstance(x, int) and not isinstance(y, int) and x.eq(y)) for x, y in zip(bs_big, bs_small)
+                )
+                if not same:
+                    conj.append(simp(Z(to_int(ctx, Rope(big[:1]), "big")) == Z(to_int(ctx, Rope(small[:j]), "big"))))
+                del big[:1]
+                del small[:j]
+                continue
         if _same(ls, lt):
             conj.append(_eq_seg(ctx, s, t))
             a.pop(0)
@@ -569,7 +621,7 @@ def _eq_seg(ctx, s, t):
     if isinstance(s, Lit) and isinstance(t, Lit):
         return s.data == t.data
     if isinstance(s, IntSeg) and isinstance(t, IntSeg) and s.order == t.order:
-        return simp(Z(s.value()) == Z(t.value()))
+        return simp(Z(s.value(ctx)) == Z(t.value(ctx)))
     if isinstance(s, Atom) and isinstance(t, Atom):
         if s.term.eq(t.term):
             return simp(z3.Or(Z(s.lo) == Z(t.lo), Z(s.length) == 0))
